@@ -43,29 +43,37 @@ _R_COMMON = ['V <= D.Q', 'discovered <= D.Q', 'V <= Reach(D, q)',
              'implies(depth == 0, q in discovered)',
              'implies(depth != 0, q in V or all(D.delta[(q, a)] in discovered for a in D.Sigma))']
 contract(M, 'dfa_reachable_states', {'D': 'DFA', 'q': 'State', 'depth': 'Int'}, returns='Set[State]', defaults={'depth': '0'},
-         requires=['dfa_wf(D)', 'q in D.Q'],
+         requires=['dfa_wf(D)', 'q in D.Q', 'fin(D.Q)'],
          ensures=['implies(depth == 0, result == Reach(D, q))', 'implies(depth != 0, result == Reach1(D, q))', 'result <= D.Q'],
          types={'discovered': 'Set[State]', 'Vnext': 'Set[State]', 'V': 'Set[State]'},
+         # termination: every round that does not break discovers at least one more of the finitely many states
          loops={1: {'invariant': _R_COMMON + ['all(D.delta[(x, a)] in discovered for x in discovered - V for a in D.Sigma)'],
-                    'exit_hints': ['Reach_least(D, q, discovered)', 'Reach1_least(D, q, discovered)']},
-                2: {'ghost': 'donePairs', 'invariant': _R_COMMON + ['Vnext <= discovered', 'Vnext <= D.Q', 'Vnext <= Reach(D, q)',
+                    'exit_hints': ['Reach_least(D, q, discovered)', 'Reach1_least(D, q, discovered)'],
+                    'snapshot': {'c0': 'card(D.Q - discovered)'}, 'decreases': ['card(D.Q - discovered)']},
+                2: {'ghost': 'donePairs', 'invariant': _R_COMMON + ['fin(Vnext)', 'card(D.Q - discovered) + card(Vnext) == c0',
+                                                                   'Vnext <= discovered', 'Vnext <= D.Q', 'Vnext <= Reach(D, q)',
                                                                    'all(D.delta[(x, a)] in discovered for x in discovered - V - Vnext for a in D.Sigma)',
                                                                    'all(D.delta[(u0, a0)] in discovered for (u0, a0) in donePairs)']}},
          theories=['word', 'dfa'], props=['C14', 'C19'])
 
-contract(M, 'dfa_remove_unreachable_states', {'D': 'DFA'}, returns='DFA', requires=['dfa_wf(D)'],
+contract(M, 'dfa_remove_unreachable_states', {'D': 'DFA'}, returns='DFA', requires=['dfa_wf(D)', 'fin(D.Q)'],
          ensures=['dfa_wf(result)', 'result.Q == Reach(D, D.q0)', 'result.Sigma == D.Sigma', 'result.q0 == D.q0', 'result.F == D.F & Reach(D, D.q0)',
                   'all(result.delta[(x, a)] == D.delta[(x, a)] for x in Reach(D, D.q0) for a in D.Sigma)',
                   'all(implies(over(D.Sigma, w), dfa_accepts(result, w) == dfa_accepts(D, w)) for w in allwords())'],
          theories=['word', 'dfa'], props=['C14', 'C19'])
 
-contract(M, 'dfa_no_extend', {'D': 'DFA'}, returns='DFA', requires=['dfa_wf(D)'],
+contract(M, 'dfa_no_extend', {'D': 'DFA'}, returns='DFA', requires=['dfa_wf(D)', 'fin(D.Q)'],
          ensures=['dfa_wf(result)', 'result.Q == D.Q', 'result.Sigma == D.Sigma', 'result.q0 == D.q0', 'result.delta == D.delta',
-                  'all((x in result.F) == (x in D.F and (Reach1(D, x) & D.F) == set_empty()) for x in atoms())',
+                  'all((x in result.F) == (x in D.F and all(y not in D.F for y in Reach1(D, x))) for x in atoms())',
                   # the property itself, over words: w is accepted iff D accepts w and no proper extension of w
                   'all(implies(over(D.Sigma, w) and dfa_accepts(result, w), dfa_accepts(D, w)) for w in allwords())',
                   'all(implies(over(D.Sigma, w) and dfa_accepts(result, w) and v != nil() and over(D.Sigma, v), not dfa_accepts(D, app(w, v))) for w in allwords() for v in allwords())',
                   'all(implies(over(D.Sigma, w) and dfa_accepts(D, w) and not dfa_accepts(result, w), any(v != nil() and over(D.Sigma, v) and dfa_accepts(D, app(w, v)) for v in allwords())) for w in allwords())'],
+         asserts=['all(implies(x in result.F, x in D.F) for x in atoms())',
+                  'all(implies(x in result.F and y in Reach1(D, x), y not in D.F) for x in atoms() for y in atoms())',
+                  'all(implies(x in D.F and x not in result.F, any(y in Reach1(D, x) and y in D.F for y in atoms())) for x in atoms())',
+                  'all(implies(x in result.F and v != nil() and over(D.Sigma, v), dhat(D, x, v) not in D.F) for x in atoms() for v in allwords())',
+                  'all(implies(x in D.F and x not in result.F, any(v != nil() and over(D.Sigma, v) and dhat(D, x, v) in D.F for v in allwords())) for x in atoms())'],
          theories=['word', 'wordx', 'dfa', 'nfa', 'dfax'], props=['C14', 'C19'],
          note='F\' = accepting states from which no accepting state is reachable by a non-empty path; with the lemmas Reach1-of-word / Reach1-has-word / dhat-app this is the word-level statement L(result) = {w in L(D) | no proper extension of w in L(D)}')
 
